@@ -154,7 +154,13 @@ func (c05) Run(c *mon.Ctx, i int) {
 	all := append(append([]byte(nil), container...), T...)
 	base := map[string]interface{}{"wrapper": wrapper, "container": desc, "container_len": len(container), "container_sha": mon.Sha(container), "suffix_len": len(T), "payload_len": len(payload)}
 	for _, kind := range c05Sources {
-		for _, ctor := range []string{"NewReader", "Reset"} {
+		for _, ctor := range []string{"NewReader", "Reset", "NewReader+reused-elsewhere"} {
+			// third variant: after io.EOF the Reader is Reset onto an unrelated
+			// source and used there before the caller looks at the first source
+			elsewhere := ctor == "NewReader+reused-elsewhere"
+			if elsewhere && i%3 != 0 {
+				continue
+			}
 			src := c05Source(kind, all)
 			var got []byte
 			var err error
@@ -163,16 +169,21 @@ func (c05) Run(c *mon.Ctx, i int) {
 				switch wrapper {
 				case "flate":
 					var rd impl.FlateReader
-					if ctor == "NewReader" {
+					if ctor != "Reset" {
 						rd = c.API.NewFlateReader(src)
 					} else {
 						rd = c.API.NewFlateReader(bytes.NewReader(nil))
 						rd.Reset(src, nil)
 					}
 					got, err, _ = readAllSizes(rd, sizes, len(payload)+1<<20)
+					if elsewhere && err == io.EOF {
+						other := encodeStd([]byte("an unrelated stream read through the same Reader afterwards"), 6, nil)
+						rd.Reset(bytes.NewReader(other), nil)
+						io.Copy(io.Discard, rd)
+					}
 				case "gzip":
 					var rd impl.GzipReader
-					if ctor == "NewReader" {
+					if ctor != "Reset" {
 						rd, err = c.API.NewGzipReader(src)
 					} else {
 						rd, err = c.API.NewGzipReader(bytes.NewReader(encodeStdGzip([]byte("x"), 1)))
@@ -185,9 +196,14 @@ func (c05) Run(c *mon.Ctx, i int) {
 					}
 					rd.Multistream(false)
 					got, err, _ = readAllSizes(rd, sizes, len(payload)+1<<20)
+					if elsewhere && err == io.EOF {
+						if rd.Reset(bytes.NewReader(encodeStdGzip([]byte("unrelated"), 6))) == nil {
+							io.Copy(io.Discard, rd)
+						}
+					}
 				case "zlib":
 					var rd impl.ZlibReader
-					if ctor == "NewReader" {
+					if ctor != "Reset" {
 						rd, err = c.API.NewZlibReader(src)
 					} else {
 						rd, err = c.API.NewZlibReader(bytes.NewReader(encodeStdZlib([]byte("x"), 1, nil)))
@@ -199,6 +215,11 @@ func (c05) Run(c *mon.Ctx, i int) {
 						return
 					}
 					got, err, _ = readAllSizes(rd, sizes, len(payload)+1<<20)
+					if elsewhere && err == io.EOF {
+						if rd.Reset(bytes.NewReader(encodeStdZlib([]byte("unrelated"), 6, nil)), nil) == nil {
+							io.Copy(io.Discard, rd)
+						}
+					}
 				}
 			})
 			c.Eval(1)
